@@ -75,6 +75,38 @@ def fmat_np(M):
     return fmat([[Fraction(float(v)) for v in row] for row in np.asarray(M, dtype=float)])
 
 
+def gram_diag(space):
+    """diagonal of the Gram matrix of the flat unit vectors (all spaces drawn here have
+    diagonal, i.e. constant / cell-volume, weightings)"""
+    n = size_of(space)
+    out = []
+    for j in range(n):
+        e = np.zeros(n)
+        e[j] = 1.0
+        ej = unflat(space, e)
+        out.append(float(ej.inner(ej)))
+    return np.array(out)
+
+
+def true_opnorm(op, M=None):
+    """operator norm w.r.t. the inner products of domain and range, from the matrix of `op` and
+    the two Gram matrices only (independent of `op.adjoint` and of `op.norm`)"""
+    if M is None:
+        M = np.array([[float(v) for v in row] for row in sl.exact_matrix(op)])
+    wd, wr = gram_diag(op.domain), gram_diag(op.range)
+    return smax(np.sqrt(wr)[:, None] * M / np.sqrt(wd)[None, :])
+
+
+def l_term(r, space):
+    """strongly convex `l_i = a |.|^2`: (odl functional, a, PSpec of grad l*, PSpec factory of
+    prox_{sigma l*})"""
+    import odl
+    a = r.choice([1.0, 2.0, 0.5])
+    l = odl.solvers.L2NormSquared(space) if a == 1.0 else a * odl.solvers.L2NormSquared(space)
+    A = Fraction(a)
+    return l, a, 'scale:' + fs(1 / (2 * A)), (lambda sg: 'scale:' + fs(1 / (1 + Fraction(float(sg)) / (2 * A))))
+
+
 # ---------------------------------------------------------------------------
 # linear solvers
 
@@ -165,30 +197,56 @@ def family_cgn(ctx, r, exact, n, opaque=False):
 
 
 def family_landweber_mono(ctx, r, exact, n, opaque=False):
-    """oracle only: residual under admissible relaxation (model tie: C11 family)"""
+    """oracle only: residual under admissible relaxation, INCLUDING the default `omega=None`
+    (= 1/op.norm(estimate=True)**2); model tie: C11 family and `lwomega`."""
     from odl.solvers import landweber
     kind, A = sl.operator_zoo(r)
     M = np.array([[float(v) for v in row] for row in sl.exact_matrix(A)])
     b = sl.dy_vec(r, size_of(A.range), 16, 8)
     x0 = sl.dy_vec(r, size_of(A.domain), 16, 8)
-    u = r.choice([0.25, 0.5, 1.0, 1.5, 1.999])
-    omega = u / smax(M) ** 2
-    p = dict(solver='landweber_mono', opkind=kind, x0=x0, omega=omega, fk='-', gk='-',
-             cseed=r.cseed)
+    nrm = true_opnorm(A, M)
+    default = r.random() < 0.4
+    u = None if default else r.choice([0.25, 0.5, 1.0, 1.5, 1.999])
+    omega = None if default else u / nrm ** 2
+    p = dict(solver='landweber_mono', opkind=kind, x0=x0, omega=omega if omega else 'None', fk='-',
+             gk='-', cseed=r.cseed)
     x = unflat(A.domain, x0)
     rec = Recorder()
     n = r.randint(2, 30)
+    npseed = r.randint(0, 2 ** 31 - 1)
+    np.random.seed(npseed)
     st, _ = guarded(landweber, A, x, unflat(A.range, b), n, omega=omega, callback=rec)
     if st == 'ok':
         # residual in the norm of the range space (cell-volume weights on discretised spaces)
         res = [float((A(unflat(A.domain, v)) - unflat(A.range, b)).norm()) for v in [x0] + rec.iterates]
         k = mono_violation(res)
         if k is not None:
-            viol(ctx, 'landweber residual increases opkind={} omega*|A|^2={}'.format(kind, u),
-                 '|Ax_{}-b|={} > |Ax_{}-b|={}'.format(k + 1, res[k + 1], k, res[k]), p, n=n)
-    ctx.case(('oracle', 'landweber_mono', kind, u) if st == 'ok' else None)
-    ctx.hit('oracle/landweber_residual')
-    return []
+            viol(ctx, 'landweber residual increases opkind={} omega={}'.format(
+                kind, 'default(None)' if default else '{}/|A|^2'.format(u)),
+                '|Ax_{}-b|={} > |Ax_{}-b|={} (numpy seed {})'.format(k + 1, res[k + 1], k, res[k], npseed),
+                p, n=n, npseed=npseed)
+    else:
+        viol(ctx, 'landweber raises opkind={} omega={}'.format(kind, p['omega']), st, p, n=n)
+    cases = []
+    if default and st == 'ok':
+        # the default relaxation actually used, against the documented rule 1/norm**2
+        np.random.seed(npseed)
+        est = float(A.norm(estimate=True))
+        ref, v = [], unflat(A.domain, x0)
+        for _ in range(n):
+            v = v - (1 / est ** 2) * A.adjoint(A(v) - unflat(A.range, b))
+            ref.append(flat(v).copy())
+        seq_vs_reference(ctx, 'landweber(omega=None) differs from the documented default omega = '
+                         '1/|A|^2 opkind=' + kind, p, rec.iterates, ref, n=n, est=est)
+        if not (est <= nrm * (1 + 1e-9) and 2 * est ** 2 >= nrm ** 2):
+            viol(ctx, 'default Landweber relaxation inadmissible opkind=' + kind,
+                 'estimate {} of |A| = {}: omega |A|^2 = {} > 2'.format(est, nrm, nrm ** 2 / est ** 2), p)
+        cases.append(Case(desc_of(p), ('model', 'lwomega', kind), 'lwomega est=' + fs(est), 'ok', None,
+                          {'_floats': {'omega': 1 / est ** 2}}))
+        ctx.hit('model/stepsize/landweber-default')
+    ctx.case(('oracle', 'landweber_mono', kind, 'default' if default else u) if st == 'ok' else None)
+    ctx.hit('oracle/landweber_residual/' + ('default-omega' if default else 'given-omega'))
+    return cases
 
 
 def family_kaczmarz_mono(ctx, r, exact, n, opaque=False):
@@ -365,7 +423,7 @@ def family_power(ctx, r, exact, n, opaque=False):
     st, est = guarded(power_method_opnorm, op, xstart=unflat(op.domain, x0), maxiter=maxiter)
     # true norm w.r.t. the (constantly weighted) inner products = largest singular value of
     # the matrix when both weights agree; in general sqrt(max eig(M^* M)) with M^* the adjoint
-    true = float(np.sqrt(max(np.linalg.eigvals(Mt.dot(M)).real.max(), 0.0)))
+    true = true_opnorm(op, M)
     if st == 'ok':
         if not float(est) <= true * (1 + 1e-10) + 1e-300:
             viol(ctx, 'power_method_opnorm exceeds the operator norm opkind=' + kind,
@@ -417,6 +475,68 @@ def gen_multi(r, exact):
     return dom, d, m, Ls, Gs, F
 
 
+def family_stepsize_rules(ctx, r, exact, n, opaque=False):
+    """pdhg_stepsize / douglas_rachford_pd_stepsize: every branch against the model (floats given
+    as norms), and with real operators (norm estimated by the power method inside) against the
+    convergence conditions tau*sigma*|L|^2 < 1, tau*sum_i sigma_i*|L_i|^2 < 4 evaluated with
+    the true norms (numpy.linalg.svd + Gram matrices)."""
+    import odl
+    from odl.solvers import pdhg_stepsize, douglas_rachford_pd_stepsize
+    cases = []
+    p = dict(solver='stepsize_rules', opkind='-', x0=np.zeros(1), fk='-', gk='-', cseed=r.cseed)
+    # --- floats: all four / four branches
+    ln = r.choice([0.5, 1.0, 2.0, 3.0, 0.1, 7.25])
+    tau = r.choice([None, 0.5, 0.1, 2.0])
+    sigma = r.choice([None, 0.25, 0.3, 1.5])
+    st, res = guarded(pdhg_stepsize, ln, tau, sigma)
+    line = 'pdhgstep Lnorm={}{}{}'.format(fs(ln), '' if tau is None else ' tau=' + fs(tau),
+                                          '' if sigma is None else ' sigma=' + fs(sigma))
+    br = 'pdhg/{}{}'.format('t' if tau is not None else '-', 's' if sigma is not None else '-')
+    ctx.hit('model/stepsize/' + br)
+    cases.append(Case(desc_of(p, Lnorm=ln, tau=tau, sigma=sigma), ('model', 'stepsize', br), line, st,
+                      None, {'_floats': {'tau': float(res[0]), 'sigma': float(res[1])}} if st == 'ok' else {}))
+    m = r.randint(1, 3)
+    norms = [r.choice([0.5, 1.0, 2.0, 3.0, 0.1]) for _ in range(m)]
+    tau = r.choice([None, 0.5, 0.1])
+    sig = r.choice([None, [r.choice([0.25, 0.3, 1.5]) for _ in range(m)]])
+    st, res = guarded(douglas_rachford_pd_stepsize, norms, tau, sig)
+    line = 'drstep norms={}{}{}'.format(fl(norms), '' if tau is None else ' tau=' + fs(tau),
+                                        '' if sig is None else ' sigma=' + fl(sig))
+    br = 'dr/{}{}'.format('t' if tau is not None else '-', 's' if sig is not None else '-')
+    ctx.hit('model/stepsize/' + br)
+    cases.append(Case(desc_of(p, norms=norms, tau=tau, sigma=sig), ('model', 'stepsize', br, m), line, st,
+                      None, {'_floats': {'tau': float(res[0]), 'sigma': [float(v) for v in res[1]]}}
+                      if st == 'ok' else {}))
+    # --- operators: admissibility of the DEFAULT steps
+    kind, L = sl.operator_zoo(r)
+    nrm = true_opnorm(L)
+    tau = r.choice([None, None, 0.3 / nrm])
+    sigma = None if tau is not None else r.choice([None, None, 0.3 / nrm])
+    st, res = guarded(pdhg_stepsize, L, tau, sigma)
+    if st != 'ok':
+        viol(ctx, 'pdhg_stepsize raises opkind=' + kind, st, p)
+    else:
+        cond = float(res[0]) * float(res[1]) * nrm ** 2
+        if not (cond < 1.0 and cond > 0.5):
+            viol(ctx, 'pdhg_stepsize default steps violate tau*sigma*|L|^2 < 1 (or are far too small) '
+                 'opkind={} given={}'.format(kind, 'tau' if tau else ('sigma' if sigma else 'none')),
+                 'tau={} sigma={} |L|={}: tau*sigma*|L|^2 = {}'.format(res[0], res[1], nrm, cond), p)
+    m = r.randint(1, 3)
+    ops = [sl.operator_zoo(r, r.choice(['matrix', 'scaled', 'identity', 'matrix']), 3)[1] for _ in range(m)]
+    nr = [true_opnorm(o) for o in ops]
+    st, res = guarded(douglas_rachford_pd_stepsize, ops, None, None)
+    if st != 'ok':
+        viol(ctx, 'douglas_rachford_pd_stepsize raises', st, p)
+    else:
+        cond = float(res[0]) * sum(float(si) * v * v for si, v in zip(res[1], nr))
+        if not (cond < 4.0 and cond > 1.0):
+            viol(ctx, 'douglas_rachford_pd_stepsize default steps violate tau*sum(sigma_i*|L_i|^2) < 4 '
+                 '(or are far too small) m={}'.format(m),
+                 'tau={} sigma={} norms={}: {}'.format(res[0], res[1], nr, cond), p)
+    ctx.hit('oracle/stepsize admissibility')
+    return cases
+
+
 def family_dr(ctx, r, exact, n, opaque=False):
     from odl.solvers import douglas_rachford_pd
     dom, d, m, Ls, Gs, F = gen_multi(r, exact)
@@ -429,16 +549,22 @@ def family_dr(ctx, r, exact, n, opaque=False):
              fk=F.name, gk='+'.join(G.name for G in Gs), tau=tau, lam=lam, m=m, cseed=r.cseed)
     x = unflat(dom, x0)
     rec = Recorder()
+    use_l = m > 0 and r.random() < 0.4
+    lts = [l_term(r, L.range) for L in Ls] if use_l else []
+    kw_l = {'l': [t[0] for t in lts]} if use_l else {}
     st, _ = guarded(douglas_rachford_pd, x, F.f, [G.f for G in Gs], Ls, n, tau=tau, sigma=sigma,
-                    callback=rec, lam=lam)
+                    callback=rec, lam=lam, **kw_l)
     if st != 'ok':
         ctx.err(err_kind(st))
     mats = [c11.wire_op(L) for L in Ls]
     fields = ' '.join('A{0}={1} At{0}={2} p{0}={3}'.format(
         i, fmat(mats[i][0]), fmat(mats[i][1]), Gs[i].cprox(sigma[i])) for i in range(m))
+    if use_l:
+        fields += ' ' + ' '.join('pl{}={}'.format(i, lts[i][3](sigma[i])) for i in range(m))
     line = 'dr m={} {} pf={} tau={} sigma={} lam={} x0={} n={}'.format(
         m, fields, F.prox(tau), fs(tau), fl(sigma), fs(lam), fl(x0), n)
     ctx.hit('model/dr/m={}'.format(m))
+    ctx.hit('model/dr/l=' + ('given' if use_l else 'None'))
     sig = ('model', 'dr', p['opkind'], p['fk'], p['gk'], lam, c11.steps_class(exact), n)
     return [Case(desc_of(p, n=n), sig if st == 'ok' and c11.nontrivial(rec.iterates, x0) else None,
                  line, st, rec.iterates, {'x': flat(x).copy()})]
@@ -456,16 +582,22 @@ def family_fbpd(ctx, r, exact, n, opaque=False):
              fk=F.name, gk='+'.join(G.name for G in Gs), hk=H.name, tau=tau, m=m, cseed=r.cseed)
     x = unflat(dom, x0)
     rec = Recorder()
+    use_l = m > 0 and r.random() < 0.4
+    lts = [l_term(r, L.range) for L in Ls] if use_l else []
+    kw_l = {'l': [t[0] for t in lts]} if use_l else {}
     st, _ = guarded(forward_backward_pd, x, F.f, [G.f for G in Gs], Ls, H.f, tau, sigma, n,
-                    callback=rec)
+                    callback=rec, **kw_l)
     if st != 'ok':
         ctx.err(err_kind(st))
     mats = [c11.wire_op(L) for L in Ls]
     fields = ' '.join('A{0}={1} At{0}={2} p{0}={3}'.format(
         i, fmat(mats[i][0]), fmat(mats[i][1]), Gs[i].cprox(sigma[i])) for i in range(m))
+    if use_l:
+        fields += ' ' + ' '.join('gl{}={}'.format(i, lts[i][2]) for i in range(m))
     line = 'fbpd m={} {} pf={} gh={} tau={} sigma={} x0={} n={}'.format(
         m, fields, F.prox(tau), H.grad, fs(tau), fl(sigma), fl(x0), n)
     ctx.hit('model/fbpd/m={}'.format(m))
+    ctx.hit('model/fbpd/l=' + ('given' if use_l else 'None'))
     sig = ('model', 'fbpd', p['opkind'], p['fk'], p['gk'], p['hk'], c11.steps_class(exact), n)
     return [Case(desc_of(p, n=n), sig if st == 'ok' and c11.nontrivial(rec.iterates, x0) else None,
                  line, st, rec.iterates, {'x': flat(x).copy()})]
@@ -495,27 +627,54 @@ def family_apg(ctx, r, exact, n, opaque=False):
 # optimality (LABELLED TESTS: convergence is not proved)
 
 def strongly_convex_problem(r):
+    """min f(x) + g(L x): f a strongly convex quadratic (so the minimiser is unique), L from the
+    whole operator zoo (matrix, weighted matrix, partial derivative / gradient on 1-d grids with
+    cell volume != 1, scaling, identity), g from: L1 and translates/scalings, squared L2
+    translates, L2 norm, Huber, Kullback-Leibler, box / non-negativity indicators, and group-L1
+    on product-space ranges."""
     import odl
     S = odl.solvers
-    d = r.randint(1, 4)
-    m = r.randint(1, 4)
-    ill = r.random() < 0.25
-    A = rand_matrix(r, m, d, ill)
-    L = odl.MatrixOperator(A)
+    ill = r.random() < 0.2
+    if ill:
+        d, m = r.randint(1, 4), r.randint(1, 4)
+        L = odl.MatrixOperator(rand_matrix(r, m, d, True))
+        kind = 'matrix-ill'
+    else:
+        kind, L = sl.operator_zoo(r)
+    d, m = size_of(L.domain), size_of(L.range)
+    A = np.array([[float(v) for v in row] for row in sl.exact_matrix(L)])
     a = unflat(L.domain, sl.dy_vec(r, d, 16, 8))
-    f = S.L2NormSquared(L.domain).translated(a)
-    gk = r.choice(['l1', 'a_l1', 'l1_t', 'l2sq_t', 'groupl1-1'])
+    if r.random() < 0.5:
+        f, fk, fmod = S.L2NormSquared(L.domain).translated(a), 'l2sq_t', 2.0
+    else:
+        f, fk, fmod = (0.5 * S.L2NormSquared(L.domain)).translated(a), 'half_l2sq_t', 1.0
+    is_p = isinstance(L.range, odl.ProductSpace)
+    kinds = ['l1', 'a_l1', 'l1_t', 'l2sq_t', 'l2', 'huber', 'kl']
+    kinds += ['groupl1', 'groupl1'] if is_p else ['box', 'nonneg']
+    gk = r.choice(kinds)
+    c = unflat(L.range, sl.dy_vec(r, m, 8, 4))
     if gk == 'l1':
         g = S.L1Norm(L.range)
     elif gk == 'a_l1':
         g = r.choice([0.5, 2.0]) * S.L1Norm(L.range)
     elif gk == 'l1_t':
-        g = S.L1Norm(L.range).translated(unflat(L.range, sl.dy_vec(r, m, 8, 4)))
+        g = S.L1Norm(L.range).translated(c)
     elif gk == 'l2sq_t':
-        g = S.L2NormSquared(L.range).translated(unflat(L.range, sl.dy_vec(r, m, 8, 4)))
-    else:
+        g = S.L2NormSquared(L.range).translated(c)
+    elif gk == 'l2':
         g = S.L2Norm(L.range)
-    return dict(A=A, L=L, a=a, f=f, g=g, gk=gk, d=d, m=m, ill=ill)
+    elif gk == 'huber':
+        g = S.Huber(L.range, r.choice([0.5, 1.0]))
+    elif gk == 'kl':
+        g = S.KullbackLeibler(L.range, prior=unflat(L.range, np.abs(sl.dy_vec(r, m, 8, 4)) + 0.5))
+    elif gk == 'groupl1':
+        g = S.GroupL1Norm(L.range)
+    elif gk == 'box':
+        g = S.IndicatorBox(L.range, -1.0, 1.5)
+    else:
+        g = S.IndicatorNonnegativity(L.range)
+    finite = gk not in ('kl', 'box', 'nonneg')      # objective finite everywhere
+    return dict(A=A, L=L, a=a, f=f, fk=fk, fmod=fmod, g=g, gk=gk, d=d, m=m, kind=kind, finite=finite)
 
 
 def family_optimality(ctx, r, exact, n, opaque=False):
@@ -533,6 +692,8 @@ def family_optimality(ctx, r, exact, n, opaque=False):
     for k, v in sub.extra.items():
         ctx.extra.setdefault(k, []).extend(v)
     ctx.case(('test', 'optimality') + tuple(sub.extra.get('_sig', [('?',)])[0]))
+    for b_, k_ in sub.branches.items():
+        ctx.hit(b_, k_)
     ctx.extra.pop('_sig', None)
     ctx.hit('test/optimality(kkt-decay, objective agreement)')
     return []
@@ -548,92 +709,143 @@ def _optimality(ctx, r, niter):
         others = others[:2]
     tol = 1e-3 if niter < 1000 else 1e-5
     L, f, g, A = q['L'], q['f'], q['g'], q['A']
-    nrm = smax(A)
+    nrm = true_opnorm(L, A)
     x0 = sl.dy_vec(r, q['d'], 16, 8)
-    p = dict(solver='optimality', opkind='{}x{}{}'.format(q['m'], q['d'], 'ill' if q['ill'] else ''),
-             x0=x0, fk='l2sq_t', gk=q['gk'], cseed=r.cseed)
-
-    def obj(v):
-        xe = unflat(L.domain, v)
-        return float(f(xe) + g(L(xe)))
+    p = dict(solver='optimality', opkind=q['kind'], x0=x0, fk=q['fk'], gk=q['gk'], cseed=r.cseed)
     results = {}
     zero = S.ZeroFunctional(L.domain)
-    # PDHG with its exposed dual: KKT residual through the resolvents
-    x = unflat(L.domain, x0)
-    xr, y = x.copy(), L.range.zero()
     tau = sigma = 0.95 / nrm
-    st, _ = guarded(S.pdhg, x, f, g, L, niter, tau=tau, sigma=sigma, x_relax=xr, y=y)
 
     def kkt(xe, ye):
+        """sub-gradient inclusions -L^*y in df(x), Lx in dg^*(y) through the resolvents"""
         r1 = (xe - f.proximal(tau)(xe - tau * L.adjoint(ye))).norm()
         r2 = (ye - g.convex_conj.proximal(sigma)(ye + sigma * L(xe))).norm()
         return float(r1 + r2)
-    if st == 'ok':
-        results['pdhg'] = flat(x).copy()
-        k0 = kkt(unflat(L.domain, x0), L.range.zero())
+
+    def run(name, fn, *a, **kw):
+        x = unflat(L.domain, x0)
+        st, _ = guarded(fn, x, *a, **kw)
+        if st == 'ok' and sl.finite(flat(x)):
+            results[name] = x
+        else:
+            viol(ctx, '{} fails on a strongly convex problem opkind={} f={} g={}'.format(
+                name, q['kind'], q['fk'], q['gk']), st if st != 'ok' else 'non-finite result', p,
+                A=A.tolist())
+    # PDHG with its exposed dual
+    x = unflat(L.domain, x0)
+    xr, y = x.copy(), L.range.zero()
+    st, _ = guarded(S.pdhg, x, f, g, L, niter, tau=tau, sigma=sigma, x_relax=xr, y=y)
+    k0 = kkt(unflat(L.domain, x0), L.range.zero())
+    if st == 'ok' and sl.finite(flat(x)):
+        results['pdhg'] = x
         k1 = kkt(x, y)
         ctx.extra.setdefault('kkt_residual_decay(test)', []).append(
             [round(k0, 6), float('{:.3g}'.format(k1))])
         if not k1 <= tol * 0.1 * (1 + k0):
-            viol(ctx, 'pdhg KKT residual does not decay g={} matrix={}'.format(q['gk'], p['opkind']),
-                 'KKT residual {} -> {} after {} iterations with tau=sigma=0.95/|L|'.format(
-                     k0, k1, niter), p, A=A.tolist(), niter=niter)
+            viol(ctx, 'pdhg KKT residual does not decay opkind={} f={} g={}'.format(
+                q['kind'], q['fk'], q['gk']),
+                'KKT residual {} -> {} after {} iterations with tau=sigma=0.95/|L|'.format(
+                    k0, k1, niter), p, A=A.tolist(), niter=niter)
+        # "a solution is a fixed point": restart AT the computed primal-dual pair
+        x2, xr2, y2 = x.copy(), x.copy(), y.copy()
+        st2, _ = guarded(S.pdhg, x2, f, g, L, 5, tau=tau, sigma=sigma, x_relax=xr2, y=y2)
+        drift = float((x2 - x).norm() + (y2 - y).norm()) if st2 == 'ok' else float('inf')
+        if not drift <= 20 * k1 + 1e-12 * (1 + float(x.norm())):
+            viol(ctx, 'pdhg started at a KKT pair moves away opkind={} g={}'.format(q['kind'], q['gk']),
+                 'KKT residual {}: drift {} in 5 iterations'.format(k1, drift), p, A=A.tolist())
     else:
-        viol(ctx, 'pdhg fails on a strongly convex problem g=' + q['gk'], st, p, A=A.tolist())
-    # accelerated PDHG: f = |x-a|^2 is 2-strongly convex; g* is 1/2-strongly convex for g = |.-c|^2
-    x = unflat(L.domain, x0)
-    st, _ = guarded(S.pdhg, x, f, g, L, niter, tau=tau, sigma=sigma, gamma_primal=r.choice([1.0, 2.0]))
-    if st == 'ok':
-        results['pdhg(gamma_primal)'] = flat(x).copy()
-    else:
-        viol(ctx, 'pdhg(gamma_primal) fails on a strongly convex problem g=' + q['gk'], st, p,
-             A=A.tolist())
+        viol(ctx, 'pdhg fails on a strongly convex problem opkind={} f={} g={}'.format(
+            q['kind'], q['fk'], q['gk']), st, p, A=A.tolist())
+        return
+    # DEFAULT step sizes (pdhg_stepsize inside)
+    run('pdhg(default steps)', S.pdhg, f, g, L, niter)
+    # accelerated PDHG: f is fmod-strongly convex; g* is 1/2-strongly convex for g = |.-c|^2
+    run('pdhg(gamma_primal)', S.pdhg, f, g, L, niter, tau=tau, sigma=sigma,
+        gamma_primal=r.choice([0.5, 1.0]) * q['fmod'])
     if q['gk'] == 'l2sq_t':
-        x = unflat(L.domain, x0)
-        st, _ = guarded(S.pdhg, x, f, g, L, niter, tau=tau, sigma=sigma, gamma_dual=0.5)
-        if st == 'ok':
-            results['pdhg(gamma_dual)'] = flat(x).copy()
-        else:
-            viol(ctx, 'pdhg(gamma_dual) fails on a strongly convex problem', st, p, A=A.tolist())
+        run('pdhg(gamma_dual)', S.pdhg, f, g, L, niter, tau=tau, sigma=sigma, gamma_dual=0.5)
     if 'admm' in others:
-        x = unflat(L.domain, x0)
-        st, _ = guarded(S.admm_linearized, x, f, g, L, 0.95 / nrm ** 2, 1.0, niter)
-        if st == 'ok':
-            results['admm_linearized'] = flat(x).copy()
+        run('admm_linearized', S.admm_linearized, f, g, L, 0.95 / nrm ** 2, 1.0, niter)
     if 'dr' in others:
-        x = unflat(L.domain, x0)
-        st, _ = guarded(S.douglas_rachford_pd, x, f, [g], [L], niter, tau=1.0 / nrm,
-                        sigma=[1.9 / nrm])
-        if st == 'ok':
-            results['douglas_rachford_pd'] = flat(x).copy()
+        run('douglas_rachford_pd', S.douglas_rachford_pd, f, [g], [L], niter, tau=1.0 / nrm,
+            sigma=[1.9 / nrm])
+        run('douglas_rachford_pd(default steps)', S.douglas_rachford_pd, f, [g], [L], niter)
     if 'fb0' in others:
-        x = unflat(L.domain, x0)
-        st, _ = guarded(S.forward_backward_pd, x, f, [g], [L], zero, 0.95 / nrm, [0.95 / nrm],
-                        niter)
-        if st == 'ok':
-            results['forward_backward_pd(h=0)'] = flat(x).copy()
+        run('forward_backward_pd(h=0)', S.forward_backward_pd, f, [g], [L], zero, 0.95 / nrm,
+            [0.95 / nrm], niter)
     if 'fbf' in others:
-        x = unflat(L.domain, x0)
-        # f moved to the smooth slot: grad Lipschitz 2, condition
-        # 2 min(1/tau,1/sigma) * (1/2) * sqrt(1 - tau sigma |L|^2) > 1
-        t = min(0.4, 0.5 / nrm)
-        s = min(0.4, 0.5 / nrm)
-        st, _ = guarded(S.forward_backward_pd, x, zero, [g], [L], f, t, [s], niter * 2)
-        if st == 'ok':
-            results['forward_backward_pd(h=f)'] = flat(x).copy()
-    if len([k for k in results if 'gamma' not in k]) < 1 + len(others):
-        viol(ctx, 'a non-smooth solver raises on a strongly convex problem g=' + q['gk'],
-             'only {} ran'.format(sorted(results)), p, A=A.tolist())
-    vals = {k: obj(v) for k, v in results.items()}
-    best = min(vals.values())
-    for k, v in sorted(vals.items()):
-        if not v <= best + tol * (1 + abs(best)):
-            viol(ctx, '{} does not reach the minimal objective g={} matrix={}'.format(
-                k, q['gk'], p['opkind']),
-                'objective {} after {} iterations, other solvers reach {} ({})'.format(
-                    v, niter, best, {a: round(b, 8) for a, b in vals.items()}), p, A=A.tolist(),
-                niter=niter)
-    ctx.extra.setdefault('_sig', []).append((p['opkind'], q['gk']))
+        # f in the smooth slot (gradient Lipschitz fmod): condition
+        # 2 min(1/tau,1/sigma) * (1/fmod) * sqrt(1 - tau sigma |L|^2) > 1
+        t = min(0.8 / q['fmod'], 0.5 / nrm)
+        run('forward_backward_pd(h=f)', S.forward_backward_pd, zero, [g], [L], f, t, [t], niter * 2)
+    # every solver's x with the INDEPENDENT dual certificate y of pdhg: (x_s, y) must satisfy the
+    # sub-gradient inclusions (x* is unique, any dual solution certifies it), and x_s = x_pdhg
+    xs = results['pdhg']
+    for k, xk in sorted(results.items()):
+        if k == 'pdhg':
+            continue
+        kk = kkt(xk, y)
+        dist = float((xk - xs).norm())
+        # accelerated PDHG converges sublinearly (|x_N - x*| = O(1/N), [CP2011a] Thm 2): its
+        # threshold follows that rate; the others converge linearly on these problems
+        tk = max(tol, 10.0 / niter) if 'gamma' in k else tol
+        if not (kk <= tk * (1 + k0) and dist <= tk * (1 + float(xs.norm()))):
+            viol(ctx, '{} does not reach a point satisfying the optimality conditions opkind={} f={} '
+                 'g={}'.format(k, q['kind'], q['fk'], q['gk']),
+                 'after {} iterations: sub-gradient inclusion residual {} with the dual certificate of '
+                 'pdhg (pdhg itself: {}), distance to the pdhg solution {}'.format(
+                     niter, kk, kkt(xs, y), dist), p, A=A.tolist(), niter=niter)
+    if q['finite']:
+        vals = {k: float(f(v) + g(L(v))) for k, v in results.items()}
+        best = min(vals.values())
+        for k, v in sorted(vals.items()):
+            if not v <= best + (max(tol, 10.0 / niter) if 'gamma' in k else tol) * (1 + abs(best)):
+                viol(ctx, '{} does not reach the minimal objective opkind={} f={} g={}'.format(
+                    k, q['kind'], q['fk'], q['gk']),
+                    'objective {} after {} iterations, other solvers reach {} ({})'.format(
+                        v, niter, best, {a_: round(b_, 8) for a_, b_ in vals.items()}), p,
+                    A=A.tolist(), niter=niter)
+    ctx.extra.setdefault('_sig', []).append((q['kind'], q['fk'], q['gk']))
+    ctx.hit('test/optimality/g=' + q['gk'])
+    ctx.hit('test/optimality/op=' + q['kind'])
+
+
+def family_fixed_point(ctx, r, exact, n, opaque=False):
+    """'A solution is a fixed point of each of them', on the REAL code: problems whose solution is
+    known in closed form with dual solution 0 (x* = a minimises f = |x-a|^2 and g = |. - L a|_1
+    at the same time): started at x* the solvers must stay there."""
+    import odl
+    S = odl.solvers
+    kind, L = sl.operator_zoo(r)
+    d = size_of(L.domain)
+    a = unflat(L.domain, sl.dy_vec(r, d, 16, 8))
+    f = S.L2NormSquared(L.domain).translated(a)
+    g = S.L1Norm(L.range).translated(L(a))
+    zero = S.ZeroFunctional(L.domain)
+    nrm = true_opnorm(L)
+    t = 0.9 / nrm
+    p = dict(solver='fixed_point', opkind=kind, x0=flat(a), fk='l2sq_t', gk='l1_t', cseed=r.cseed)
+    runs = [('pdhg', lambda x: S.pdhg(x, f, g, L, 6, tau=t, sigma=t)),
+            ('pdhg(default steps)', lambda x: S.pdhg(x, f, g, L, 6)),
+            ('forward_backward_pd', lambda x: S.forward_backward_pd(x, f, [g], [L], zero, t, [t], 6)),
+            ('forward_backward_pd(h=f)', lambda x: S.forward_backward_pd(x, zero, [g], [L], f,
+                                                                          min(0.4, t), [t], 6))]
+    if not isinstance(L.domain, odl.ProductSpace):
+        f1 = S.L1Norm(L.domain).translated(a)
+        g1 = (0.5 * S.L2NormSquared(L.domain)).translated(a)
+        runs += [('proximal_gradient', lambda x: S.proximal_gradient(x, f1, g1, 0.5, 6)),
+                 ('accelerated_proximal_gradient',
+                  lambda x: S.accelerated_proximal_gradient(x, f1, g1, 0.5, 6))]
+    for name, fn in runs:
+        x = a.copy()
+        st, _ = guarded(fn, x)
+        drift = float((x - a).norm()) if st == 'ok' else float('inf')
+        if not drift <= 1e-11 * (1 + float(a.norm())):
+            viol(ctx, '{} started at the solution (dual solution 0) moves away opkind={}'.format(name, kind),
+                 '{}; drift {} in 6 iterations'.format(st, drift), p)
+    ctx.case(('test', 'fixed_point', kind))
+    ctx.hit('test/start at the solution')
+    return []
 
 
 def family_optimality_multi(ctx, r, exact, n, opaque=False):
@@ -772,6 +984,45 @@ def family_proxgrad_descent(ctx, r, exact, n, opaque=False):
     return []
 
 
+def fbpd_reference(x0e, f, gs, Ls, h, tau, sigma, n, ls=None, aliased=False):
+    """[BC2015] iteration cited by the docstring, out of place with the real operators:
+    x+ = prox_{tau f}(x - tau (grad h(x) + sum L_i^* v_i)); y = 2 x+ - x;
+    v_i+ = prox_{sigma_i g_i^*}(v_i + sigma_i (L_i y - grad l_i^*(v_i))).
+    `aliased=True`: the variant in which `x_old` is the updated iterate (y = x+), F12."""
+    x = x0e.copy()
+    v = [L.range.zero() for L in Ls]
+    out = []
+    for _ in range(n):
+        t1 = h.gradient(x)
+        for L, vi in zip(Ls, v):
+            t1 = t1 + L.adjoint(vi)
+        xn = f.proximal(tau)(x - tau * t1)
+        y = xn if aliased else 2 * xn - x
+        for i, L in enumerate(Ls):
+            w = L(y) - ls[i].convex_conj.gradient(v[i]) if ls is not None else L(y)
+            v[i] = gs[i].convex_conj.proximal(sigma[i])(v[i] + sigma[i] * w)
+        x = xn
+        out.append(flat(x).copy())
+    return out
+
+
+def fbpd_split_oracle(ctx, p, impl, x0e, f, gs, Ls, h, tau, sigma, n, ls=None, what=''):
+    """Only the x_old-alias deviation is the known finding F12: the real iterates must equal
+    the documented iteration or its aliased variant; anything else is a NEW defect.
+    Returns 'documented' | 'aliased' | 'other'."""
+    doc = fbpd_reference(x0e, f, gs, Ls, h, tau, sigma, n, ls, aliased=False)
+    if not sl.arrays_differ(impl, doc):
+        return 'documented'
+    ali = fbpd_reference(x0e, f, gs, Ls, h, tau, sigma, n, ls, aliased=True)
+    d = sl.arrays_differ(impl, ali)
+    if not d:
+        return 'aliased'
+    viol(ctx, 'forward_backward_pd differs from its documented iteration BEYOND the known x_old '
+         'aliasing {}'.format(what), 'real solver vs [BC2015] iteration with y = x+ (aliased): ' + d,
+         p, n=n)
+    return 'other'
+
+
 def family_f12(ctx, r, exact, n, opaque=False):
     """min_x ind_{b}(L x) (f = h = 0): bilinear saddle problem; solution L x = b."""
     import odl
@@ -788,26 +1039,64 @@ def family_f12(ctx, r, exact, n, opaque=False):
     p = dict(solver='f12', opkind='diag{}'.format(d), x0=x0, fk='zero', gk='ind_b', tau=tau,
              cseed=r.cseed)
     niter = 300
-    res = {}
-    for name in ('forward_backward_pd', 'pdhg'):
-        x = unflat(L.domain, x0)
-        if name == 'pdhg':
-            st, _ = guarded(S.pdhg, x, zero, g, L, niter, tau=tau, sigma=sigma)
-        else:
-            st, _ = guarded(S.forward_backward_pd, x, zero, [g], [L], zero, tau, [sigma], niter)
-        res[name] = float((L(x) - b).norm()) if st == 'ok' else float('nan')
+    x = unflat(L.domain, x0)
+    st, _ = guarded(S.pdhg, x, zero, g, L, niter, tau=tau, sigma=sigma)
+    res_pdhg = float((L(x) - b).norm()) if st == 'ok' else float('nan')
+    x = unflat(L.domain, x0)
+    rec = Recorder()
+    st, _ = guarded(S.forward_backward_pd, x, zero, [g], [L], zero, tau, [sigma], niter, callback=rec)
+    res_fb = float((L(x) - b).norm()) if st == 'ok' else float('nan')
     r0 = float((L(unflat(L.domain, x0)) - b).norm())
-    if not res['pdhg'] <= 1e-6 * (1 + r0):
+    if not res_pdhg <= 1e-6 * (1 + r0):
         viol(ctx, 'pdhg does not solve the bilinear problem min ind_b(Lx)',
-             'residual |Lx-b| {} -> {}'.format(r0, res['pdhg']), p, niter=niter)
-    if not res['forward_backward_pd'] <= 1e-3 * (1 + r0):
-        viol(ctx, 'forward_backward_pd x_old alias: no over-relaxation, iterates rotate on the '
-             'bilinear problem min ind_b(Lx) with tau*sigma*|L|^2 = 1/4',
-             'residual |Lx-b| {} -> {} after {} iterations (pdhg on the same problem: {})'.format(
-                 r0, res['forward_backward_pd'], niter, res['pdhg']), p, niter=niter,
-             L=Lm.tolist(), b=[float(v) for v in flat(b)])
+             'residual |Lx-b| {} -> {}'.format(r0, res_pdhg), p, niter=niter)
+    if st != 'ok':
+        viol(ctx, 'forward_backward_pd raises on the bilinear problem', st, p)
+    else:
+        which = fbpd_split_oracle(ctx, p, rec.iterates[:40], unflat(L.domain, x0), zero, [g], [L], zero,
+                                  tau, [sigma], 40, what='(bilinear problem)')
+        ctx.hit('test/forward_backward_pd iteration = ' + which)
+        if which == 'aliased' and not res_fb <= 1e-3 * (1 + r0):
+            # the iteration is EXACTLY the aliased variant and that variant does not converge
+            viol(ctx, 'forward_backward_pd x_old alias: no over-relaxation, iterates rotate on the '
+                 'bilinear problem min ind_b(Lx) with tau*sigma*|L|^2 = 1/4',
+                 'iterates equal the documented iteration with y = x+ instead of 2x+ - x; residual '
+                 '|Lx-b| {} -> {} after {} iterations (pdhg on the same problem: {})'.format(
+                     r0, res_fb, niter, res_pdhg), p, niter=niter, L=Lm.tolist(),
+                 b=[float(v) for v in flat(b)])
+        elif which == 'documented' and not res_fb <= 1e-3 * (1 + r0):
+            viol(ctx, 'forward_backward_pd follows the documented iteration but does not solve the '
+                 'bilinear problem', 'residual {} -> {}'.format(r0, res_fb), p)
     ctx.case(('test', 'f12', d))
     ctx.hit('test/forward_backward_pd bilinear (F12)')
+    return []
+
+
+def family_ref_fbpd(ctx, r, exact, n, opaque=False):
+    """forward_backward_pd on random problems (0..3 operators, with and without `l` terms)
+    against the documented iteration / its aliased variant (see `fbpd_split_oracle`)."""
+    from odl.solvers import forward_backward_pd
+    dom, d, m, Ls, Gs, F = gen_multi(r, False)
+    H = sl.functional_zoo(r, dom, smooth=True, exact=False)
+    tau = sl.pick_step(r, False)
+    sigma = [sl.pick_step(r, False) for _ in range(m)]
+    use_l = m > 0 and r.random() < 0.5
+    lts = [l_term(r, L.range)[0] for L in Ls] if use_l else None
+    x0 = sl.dy_vec(r, d, 16, 8)
+    n = r.randint(2, 6)
+    p = dict(solver='ref_fbpd', opkind='x'.join(str(size_of(L.range)) for L in Ls) or 'none', x0=x0,
+             fk=F.name, gk='+'.join(G.name for G in Gs), hk=H.name, tau=tau, m=m, cseed=r.cseed)
+    x = unflat(dom, x0)
+    rec = Recorder()
+    st, _ = guarded(forward_backward_pd, x, F.f, [G.f for G in Gs], Ls, H.f, tau, sigma, n,
+                    callback=rec, **({'l': lts} if use_l else {}))
+    if st != 'ok':
+        viol(ctx, 'forward_backward_pd raises m={} l={}'.format(m, 'given' if use_l else 'None'), st, p, n=n)
+    else:
+        which = fbpd_split_oracle(ctx, p, rec.iterates, unflat(dom, x0), F.f, [G.f for G in Gs], Ls, H.f,
+                                  tau, sigma, n, lts, what='m={} l={}'.format(m, 'given' if use_l else 'None'))
+        ctx.hit('reference/forward_backward_pd = ' + which)
+    ctx.case(('reference', 'fbpd', p['opkind'], p['fk'], p['gk'], p['hk'], use_l))
     return []
 
 
@@ -1152,12 +1441,13 @@ FAMILIES = {
     'apg': family_apg,
     'landweber_mono': family_landweber_mono, 'kaczmarz_mono': family_kaczmarz_mono,
     'optimality': family_optimality, 'proxgrad_descent': family_proxgrad_descent,
-    'f12': family_f12,
+    'f12': family_f12, 'stepsize_rules': family_stepsize_rules, 'ref_fbpd': family_ref_fbpd,
+    'fixed_point': family_fixed_point,
     'ref_kaczmarz': family_ref_kaczmarz, 'ref_osmlem': family_ref_osmlem,
     'optimality_multi': family_optimality_multi,
     'ref_pdhg': family_ref_pdhg, 'ref_fista': family_ref_fista, 'fista_rate': family_fista_rate,
 }
-SLOW = {'optimality': 0.15, 'optimality_multi': 0.15, 'proxgrad_descent': 0.15, 'f12': 0.05, 'fista_rate': 0.05}
+SLOW = {'optimality': 0.2, 'fixed_point': 0.3, 'optimality_multi': 0.15, 'proxgrad_descent': 0.15, 'f12': 0.05, 'fista_rate': 0.05}
 C11_TIE = ('landweber', 'kaczmarz', 'pdhg', 'admm', 'proxgrad')
 
 
@@ -1189,6 +1479,17 @@ def compare(ctx, c, ans):
     if '_literal' in ex:
         if ans.strip() != ex['_literal']:
             ctx.disagree(c.desc, ex['_literal'], ans[:200])
+        return
+    if '_floats' in ex:
+        for k, want in ex['_floats'].items():
+            if k not in fields:
+                ctx.disagree(c.desc, '{}={}'.format(k, want), ans[:200])
+                return
+            got = [float(core.pfrac(t)) for t in fields[k].split(',')] if fields[k] != 'nonfinite' else [float('nan')]
+            wl = want if isinstance(want, list) else [want]
+            if len(got) != len(wl) or any(not abs(a - b) <= 1e-12 * max(1.0, abs(b)) for a, b in zip(got, wl)):
+                ctx.disagree(c.desc, '{}={}'.format(k, want), '{}={}'.format(k, got))
+                return
         return
     if '_float' in ex:
         if ex['_literal_raise']:
